@@ -228,3 +228,6 @@ def replay(rec):
     print("impl ", io)
     print("model", mo)
     return 0 if io == mo else 1
+
+
+CLAIM = {'tech': 'Coq proof over a Gallina model of PackURI/posixpath + extracted-model correspondence (bounded-exhaustive part names) + direct oracle', 'text': '15 theorems (C19_*) closed under the global context state the round trip for all well-formed part names, the accessors, rejection, and agreement with RFC 3986 dot-segment removal; the model is tied to src/pptx/opc/packuri.py by running the extracted model and the implementation on every part name to depth 3/4 over a 16-segment alphabet and on random references.', 'note': "posixpath is re-implemented in the model (transcribed, exercised by the correspondence); cwd-dependent inputs excluded; RFC statement excludes references ending in '.', '..', '/' or containing '//'.", 'ref': '6/C19'}
